@@ -171,6 +171,7 @@ class Slot:
     keyed_by: tuple | None = None  # dict slots: the key term (field name provenance)
     alts: list = dataclasses.field(default_factory=list)
     foreign: list = dataclasses.field(default_factory=list)  # values the constructor may also leave there that are no context lookups
+    hint_keys: list = dataclasses.field(default_factory=list)  # dict slots: which forms of the hint are looked up (raw / evaluated)
 
 
 def method_return_terms(prog: Program, cls: ClassInfo, name: str) -> list[tuple]:
@@ -233,6 +234,7 @@ def _slot_from(prog, cls, attr, v, depth=0):
                 elif s.lookup not in ("none", merged.lookup):
                     merged.lookup = "mixed"
                 merged.keyed_by = merged.keyed_by or s.keyed_by
+                merged.hint_keys = sorted(set(merged.hint_keys) | set(s.hint_keys))
         return merged
     return _dict_slot(attr, v)
 
@@ -247,6 +249,7 @@ def _dict_slot(attr, tm):
     if not pairs:
         return None
     lookups = []
+    raw_keys: list = []
     noop = False
     keyed = None
     for k, v in pairs:
@@ -256,6 +259,7 @@ def _dict_slot(attr, tm):
             if lk and arg_position(lk[1]) == "hint":
                 lookups.append(lk[0])
                 keyed = k
+                raw_keys.append("evaluated" if T.is_call_to(lk[1], "typelib.py.refs.evaluate") else "raw")
             elif a[0] == "call" and T.refname(a[1]) and T.refname(a[1]).rsplit(".", 1)[-1].startswith("NoOp"):
                 noop = True
                 keyed = keyed or k
@@ -265,7 +269,9 @@ def _dict_slot(attr, tm):
         form = "none"
     else:
         form = "tolerant" if all(x == "tolerant" for x in lookups) else ("strict" if all(x == "strict" for x in lookups) else "mixed")
-    return Slot(attr, "dict", "hint", form, tm, noop, keyed)
+    sl = Slot(attr, "dict", "hint", form, tm, noop, keyed)
+    sl.hint_keys = sorted(set(raw_keys))
+    return sl
 
 
 # ------------------------------------------------------------------------------------------------
